@@ -221,3 +221,15 @@ def replay(failure):
 
 def rerun(doc):
     return _try(doc["input"])
+
+
+SWEEP_DOC = "syntax errors after ASCII and non-ASCII text compiled by the real prqlc: a list of located errors is expected, never a panic"
+
+
+def sweep():
+    out = []
+    for src in ["from a\nselect {", "from a # cafe\nselect {a,", "from a # café 日本語テーブル\nselect {", "let x = \"éééééééé\"\nfrom t | select {a,", "from t | derive x = 'é' + | take 1"]:
+        r = _try(src)
+        r["obligation"] = "span_units.SU2"
+        out.append(r)
+    return out
